@@ -33,9 +33,10 @@ def run(res, f, tier):
     UNROLL = 3 if tier == "thorough" else 2
     ev_value = find(f, "evaluate_value", "ruleset::RuleSet")
     ev_fn = find(f, "evaluate", "ruleset::RuleSet")
-    eval_rule = [d for d, b in f.bodies.items() if b["name"] == "eval_rule"]
-    if len(eval_rule) != 1:
-        raise Inconclusive("per-rule evaluation entry (eval_rule) not found")
+    import anchors
+    A = anchors.resolve(f)
+    eval_rule = [A["eval_rule"]]
+    ER = A["short"]["eval_rule"]
     outcome = f.adts.get("ruleset::Outcome")
     rule_adt = f.adts.get("ruleset::rule::Rule")
     if not outcome or not rule_adt:
@@ -77,11 +78,11 @@ def run(res, f, tier):
             results = "Vec::new()"
             for i in range(k):
                 el = "elem%d(%s)" % (i, src)
-                call = "Expr::eval_rule(%s.%d, self, BTreeMap::new(), facts)" % (el, expr_idx if expr_idx is not None else 0)
+                call = ER + "(%s.%d, self, BTreeMap::new(), facts)" % (el, expr_idx if expr_idx is not None else 0)
                 vals = {"value": "await(%s)" % call, "rule": el}
                 oc = "Outcome(%s)" % ", ".join(vals[n] for n in ofields)
                 conds.append(("next(%s, #%d)" % (src, i), "ok"))
-                events += [("next", src, i), ("call", "Expr::eval_rule", "%s.%d" % (el, expr_idx or 0), "self", "BTreeMap::new()", "facts"),
+                events += [("next", src, i), ("call", ER, "%s.%d" % (el, expr_idx or 0), "self", "BTreeMap::new()", "facts"),
                            ("call", "Vec::push", results, oc)]
                 results = "push(%s, %s)" % (results, oc)
             conds.append(("next(%s, #%d)" % (src, k), "fails"))
@@ -92,14 +93,14 @@ def run(res, f, tier):
             # which cache object is handed to the per-rule evaluation is C11's concern, not C09's
             import re
             def cache_free(x):
-                return re.sub(r"(Expr::eval_rule\([^,]*, self, )BTreeMap::new\(\)", r"\1CACHE", x) if isinstance(x, str) else x
+                return re.sub(r"(" + re.escape(ER) + r"\([^,]*, self, )[\w:<>]+\(\)", r"\1CACHE", x) if isinstance(x, str) else x
             out = set()
             for c, evs, r in ps:
                 evs2 = []
                 for e in evs:
-                    if e in (("call", "BTreeMap::new"), ("call", "Vec::new")):
-                        continue
-                    if e[0] == "call" and e[1] == "Expr::eval_rule":
+                    if e[0] == "call" and len(e) == 2:
+                        continue      # constructors without arguments (the result list, the cache)
+                    if e[0] == "call" and e[1] == ER:
                         e = e[:4] + ("CACHE",) + e[5:]
                     evs2.append(tuple(cache_free(x) for x in e))
                 out.add((c, tuple(evs2), cache_free(r)))
